@@ -14,9 +14,10 @@ IMPL = os.path.join(esrv.VERIF, "harness", "corr", "c19_impl.py")
 
 TRUSTED = [
     "Coq 8.16.1 kernel + vm_compute (no native_compute); Coquelicot 3 (RInt, is_derive)",
-    "Print Assumptions: combinatorial theorems (grid sorted/no repeats, contains data, mask, cache) are closed under the global "
-    "context; real-analysis theorems list ClassicalDedekindReals.sig_not_dec, sig_forall_dec, "
-    "FunctionalExtensionality.functional_extensionality_dep and (via Coquelicot) Classical_Prop.classic",
+    "Print Assumptions: grid sorted/no repeats, contains data, mask, all four cache theorems and the Q preorder laws are closed under the "
+    "global context; every theorem mentioning R lists ClassicalDedekindReals.sig_not_dec, sig_forall_dec and "
+    "FunctionalExtensionality.functional_extensionality_dep; C19_trapz_exact_affine, C19_trapz_error_c2, C19_lipschitz_of_bounded_derivative, "
+    "C19_mu_error_bound, C19_mu_prediction_bound, C19_analytic_vs_numeric additionally Classical_Prop.classic (Coquelicot / ln)",
     "hand-written model coq/Model/Trapz.v of get_pred/clear_data (np.linspace, np.unique, np.where equality, np.squeeze, "
     "scipy cumulative_trapezoid, scalar broadcast, `dL *= zp1` broadcasting, cache attributes), one generic definition "
     "instantiated over Q (executed) and R (theorems)",
@@ -386,14 +387,17 @@ def correspondence(ctx):
         rep.fail("broken-correspondence", "cannot read the attributes __init__/clear_data set: %s" % e, "C19:init-consts",
                  theorem="instance set-up (object.__new__ + attributes of __init__)")
         return
+    for e in C.get("errors", []):
+        rep.fail("broken-correspondence", "PanthLikelihood.__init__/clear_data no longer has the modelled shape: %s" % e, "C19:init-consts",
+                 observed=C, theorem="instance set-up / cache_empty / clear_data")
     for k, v in EXPECT_SRC.items():
-        if C.get(k) != v:
+        if k in C and C.get(k) != v:
             rep.fail("broken-correspondence", "PanthLikelihood.__init__/clear_data changed: %s is %r, the model assumes %r" % (k, C.get(k), v),
                      "C19:init-consts", observed=C, theorem="instance set-up / cache_empty / clear_data")
-    if not (isinstance(C["delta_z"], float) and C["delta_z"] > 0 and isinstance(C["min_nz"], int) and C["min_nz"] >= 1):
-        rep.fail("broken-correspondence", "delta_z / min_nz outside the theorems' hypotheses: %r %r" % (C["delta_z"], C["min_nz"]),
+    if not (isinstance(C.get("delta_z"), float) and C["delta_z"] > 0 and isinstance(C.get("min_nz"), int) and C["min_nz"] >= 1):
+        rep.fail("broken-correspondence", "delta_z / min_nz outside the theorems' hypotheses: %r %r" % (C.get("delta_z"), C.get("min_nz")),
                  "C19:init-consts", theorem="hypotheses 0 < delta_z, 1 <= min_nz")
-        return
+        C = dict(C, delta_z=0.02, min_nz=10)   # carry on with the documented values so that the comparison still runs
     const = unhex(C["mu_const"])
     delta_real, min_nz = C["delta_z"], C["min_nz"]
     rng = esrv.rng(ctx.seed, "c19-corr")
@@ -619,10 +623,10 @@ def analytic(ctx, const, delta_real, min_nz, rng):
         ctx.c19_analytic.append((job, a, mus))
         rep.traces += 2
         for z, x, y, t in zip(job["zs"], ma, mb, tols):
-            # both within the proved bound of the exact integral => within 2*tol of each other
-            if not (x == y or abs(x - y) <= 2 * t + 1e-9):
+            # the analytic value is exact (C19_integrated_path_exact), the numeric one within the proved bound of it
+            if not (x == y or abs(x - y) <= t + 1e-9):
                 rep.fail("broken-correspondence", "analytic and numeric paths differ by more than the proved quadrature bound at 1+z=%r: %r vs %r (bound %g)"
-                         % (z, x, y, 2 * t), "C19:analytic-corr", observed={"job": job["tag"], "antiderivative": a.get("eq")},
+                         % (z, x, y, t), "C19:analytic-corr", observed={"job": job["tag"], "antiderivative": a.get("eq")},
                          theorem="C19_analytic_vs_numeric")
                 break
 
@@ -667,11 +671,10 @@ def search(ctx):
         rep.fail("broken-correspondence", "cannot read __init__ constants: %s" % e, "C19:init-consts", theorem="search set-up")
         return
     const = unhex(C["mu_const"])
-    delta, min_nz = C["delta_z"], C["min_nz"]
+    delta, min_nz = C.get("delta_z"), C.get("min_nz")
     if not (isinstance(delta, float) and delta > 0 and isinstance(min_nz, int) and min_nz >= 2):
-        delta_spec, min_nz_spec = 0.02, 10
-    else:
-        delta_spec, min_nz_spec = delta, min_nz
+        delta, min_nz = 0.02, 10
+    delta_spec, min_nz_spec = delta, min_nz
     # the constant itself: 5 log10(c / (1 km/s/Mpc) / 10 pc)
     import mpmath as mp
     mp.mp.dps = 30
@@ -692,7 +695,7 @@ def search(ctx):
             scale = rng.choice([1, 4900])
             pr = params_for(rng, fam, scale)
             jobs.append({"tag": "%s/%d/%s" % (fam, n, shape), "fam": fam, "zs": zs, "params": pr, "n": n, "shape": shape,
-                         "delta": hx(delta if isinstance(delta, float) else 0.02), "min_nz": min_nz if isinstance(min_nz, int) else 10,
+                         "delta": hx(delta), "min_nz": min_nz,
                          "calls": [predcall(zs, fam, pr)]})
     # clear_data between different arguments: second answer must satisfy the property for ITS argument
     for t in range(2 if ctx.quick else 6):
